@@ -5,10 +5,6 @@ pub open spec fn StakeRegistration_enc(x: StakeRegistration) -> Seq<Tok> {
 }
 // network_id = 0 / 1
 pub open spec fn NetworkId_enc(x: NetworkId) -> Seq<Tok> { seq![Tok::UInt(match x.0 { NetworkIdKind::Testnet => 0, NetworkIdKind::Mainnet => 1 })] }
-// redeemer_tag = 0 spend / 1 mint / 2 cert / 3 reward / 4 voting / 5 proposing
-pub open spec fn RedeemerTagKind_enc(x: RedeemerTagKind) -> Seq<Tok> {
-    seq![Tok::UInt(match x { RedeemerTagKind::Spend => 0, RedeemerTagKind::Mint => 1, RedeemerTagKind::Cert => 2, RedeemerTagKind::Reward => 3, RedeemerTagKind::Vote => 4, RedeemerTagKind::VotingProposal => 5 })]
-}
 // redeemer (array form) = [ tag, index, data, ex_units ]
 pub open spec fn Redeemer_enc(x: Redeemer) -> Seq<Tok> { seq![Tok::Arr(4)] + x.tag.enc() + x.index.enc() + x.data.enc() + x.ex_units.enc() }
 // nonce = [ 0 // 1, bytes .size 32 ]
